@@ -135,6 +135,23 @@ def run_verus_unit(u, scratch, tier, extra_flags=()):
         msg = "; ".join(e["message"] for e in errors)[:1500] or p.stderr[-1500:]
         # a closure contract re-attached by parameter list (its anchor text was gone) may have landed on a closure of a
         # different type: retry once without that fallback (the contract is then simply lost, a soft loss)
+        # a proof hint that names a local the code no longer binds (renamed / removed): retry once without those hints
+        # (they are soft: what they helped to prove is still checked)
+        gen_lines_ = built.text.split("\n")
+        missing = set()
+        for e_ in errors:
+            m_ = re.match(r"cannot find value `(\w+)` in this scope", e_.get("message", ""))
+            sp_ = [x for x in e_.get("spans", []) if x.get("is_primary")]
+            if m_ and sp_ and 0 < sp_[0]["line_start"] <= len(gen_lines_) and "/*@hint*/" in gen_lines_[sp_[0]["line_start"] - 1]:
+                missing.add(m_.group(1))
+        if missing and not (missing <= vx.DROP_HINT_IDENTS):
+            vx.DROP_HINT_IDENTS |= missing
+            try:
+                r2 = run_verus_unit(u, scratch, tier, extra_flags)
+                r2.setdefault("report", []).append(dict(item="proof hints", src="", rewrites=list(vx.DROPPED_HINTS)))
+                return r2
+            finally:
+                vx.DROP_HINT_IDENTS.clear(); vx.DROPPED_HINTS.clear()
         refit = any("anchor text gone, contract attached" in w for it in built.report if isinstance(it, dict) for w in it.get("rewrites", []))
         if refit and vx.CLOSURE_FALLBACK[0]:
             vx.CLOSURE_FALLBACK[0] = False
